@@ -530,15 +530,11 @@ def paths(src=None, dst=None, dst_nets=None, block=None):
             # ...and those that are supersets of others (resulting from an inner loop).
             if src_wire is not dst_wire:
                 paths = sorted(paths, key=lambda p: len(p), reverse=True)
-                keep = []
-                for i in range(len(paths)):
-                    # Check if there is a path in paths[i+1:] that is the suffix
-                    # of paths[i] (paths[i] is at least as large as each path in
-                    # paths[i+1:]). If so, paths[i] contains a loop since both start
-                    # at src_wire, so don't keep it.
-                    if not any(paths[i][-len(p):] == p for p in paths[i + 1:]):
-                        keep.append(paths[i])
-                paths = keep
+                # A path that comes back to src_wire (through a register or memory loop) contains
+                # a shorter path as its suffix: don't keep it. (Comparing suffixes instead would
+                # also drop legitimate paths when src_wire feeds a net both directly and indirectly.)
+                paths = [p for p in paths
+                         if not any(net.dests and net.dests[0] is src_wire for net in p)]
             all_paths[src_wire][dst_wire] = paths
 
     return PathsResult(all_paths)
